@@ -80,7 +80,7 @@ def run_c07(pid, tier, seed, replay=None):
         rnd = random.Random(seed)
         if tier == "quick":
             singles = [c for c in singles if c["base"] <= 2]
-            pairs = rnd.sample(pairs, 500)
+            pairs = rnd.sample(pairs, 250)
         else:
             pairs = rnd.sample(pairs, 30000)
         cases = singles + pairs
@@ -97,7 +97,8 @@ def run_c07(pid, tier, seed, replay=None):
             ev = rows[d["line"] - 1]
             muts = ev["case"]["muts"]
             ck.violation({"class": d["kind"], "mut": [m["m"] for m in muts], "how": ev["how"], "battery": ev.get("battery", "").split(":")[0],
-                          "key": muts[0].get("key"), "val": muts[0].get("val"), "hdu": muts[0].get("hdu")},
+                          "key": muts[0].get("key"), "val": muts[0].get("val"), "hdu": muts[0].get("hdu"),
+                          "in_cfitsio_mem_read": "in mem_read" in ev.get("detail", "")},
                          {"what": "reader outcome violates C07: " + d["kind"], "case": ev["case"], "how": ev["how"], "ok": ev["ok"], "W": ev.get("W"), "battery": ev.get("battery"), "detail": ev.get("detail", "")[:700]})
         ck.cov["traces_validated_against_impl"] = len(rows)
         ck.cov["evaluations"] = len(rows)
